@@ -21,6 +21,7 @@ type Obl struct {
 	Tags   []string // property ids
 	Note   string
 	Expect string // "unsat" (default) or "sat" for vacuity checks
+	Cands  []string // candidate witnesses for existential goals: integer locals at the point of the obligation
 }
 
 type def struct {
@@ -81,6 +82,7 @@ type VC struct {
 	lets     map[string]Val
 	specDepth int
 	quants []*quantRec
+	exQuants []*quantRec
 	lastPos token.Pos
 	specQuant bool
 	readSites []string
@@ -137,6 +139,7 @@ func (vc *VC) reset() {
 	vc.notes = nil
 	vc.lets = map[string]Val{}
 	vc.quants = nil
+	vc.exQuants = nil
 	for _, l := range vc.loopList {
 		l.pre, l.hdr, l.hdrLocal, l.hdrHeap, l.variant, l.backSts = nil, nil, nil, nil, nil, nil
 	}
@@ -212,6 +215,19 @@ func (vc *VC) addObl(kind, name string, st *State, goal string, p token.Pos, tag
 		// trivially true: still counted, discharged syntactically
 	}
 	o := &Obl{Name: name, Kind: kind, PC: st.pc, Goal: goal, Pos: vc.pos(p), Tags: tags, Note: note}
+	if strings.Contains(goal, "(exists ") {
+		for _, a := range sortedAllocs(st.locals) {
+			v := st.locals[a]
+			if v.K == KInt && v.T != nil {
+				if _, _, ok := intRange(v.T); ok && len(o.Cands) < 12 {
+					o.Cands = append(o.Cands, v.S)
+					if a.Comment == "rangeindex" {
+						o.Cands = append(o.Cands, Add(v.S, "1"))
+					}
+				}
+			}
+		}
+	}
 	vc.obls = append(vc.obls, o)
 }
 
